@@ -96,6 +96,7 @@ type Explorer struct {
 	seen  int
 	stop  bool
 	logging bool
+	whereSample string
 }
 
 func NewExplorer(prog *ssa.Program, pkg *ssa.Package, fn *ssa.Function, cfg Config) *Explorer {
@@ -511,6 +512,7 @@ func (ex *Explorer) runPath(in *Interp, it WorkItem, reinit bool) {
 		ex.noteIncomplete(end.kind + ": " + end.msg)
 	}
 	ex.mu.Lock()
+	ex.whereSample = fmt.Sprintf("steps=%d dec=%d q=%d end=%s", in.steps, in.pathStats.Decisions, in.pathStats.Queries, end.kind)
 	ex.res.Decisions += in.pathStats.Decisions
 	ex.res.Queries += in.pathStats.Queries
 	ex.res.Pruned += in.pathStats.Pruned
@@ -622,6 +624,16 @@ func (ex *Explorer) Run() *Result {
 	t0 := time.Now()
 	ex.queue = []WorkItem{{}}
 	var wg sync.WaitGroup
+	if os.Getenv("VERIF_PROGRESS") != "" {
+		go func() {
+			for {
+				time.Sleep(10 * time.Second)
+				ex.mu.Lock()
+				fmt.Fprintf(os.Stderr, "[progress] popped=%d queue=%d active=%d paths=%d queries=%d solver=%.0fs where=%v\n", ex.popped, len(ex.queue), ex.active, ex.res.Paths, ex.res.Queries, ex.res.Solver.Time.Seconds(), ex.whereSample)
+				ex.mu.Unlock()
+			}
+		}()
+	}
 	for i := 0; i < ex.cfg.Workers; i++ {
 		wg.Add(1)
 		go ex.worker(i, &wg)
